@@ -53,7 +53,7 @@ func (tt *termTable) mk(t Term) *Term {
 	sb.WriteString(t.K)
 	sb.WriteByte('(')
 	switch t.K {
-	case "P", "FV":
+	case "P", "FV", "R":
 		fmt.Fprintf(&sb, "%d", t.N)
 	case "C", "G":
 		sb.WriteString(t.S)
@@ -204,6 +204,39 @@ func (t *Term) paramRooted() bool {
 	return true
 }
 
+// summaryRooted: like paramRooted but also admits loads made in the entry
+// epoch (epoch 0) of a pure function and result symbols R(k).
+func (t *Term) summaryRooted(allowLoads bool) bool {
+	switch t.K {
+	case "P", "C", "G", "R":
+		return true
+	case "V", "FV":
+		return false
+	case "L":
+		return allowLoads && t.N == 0 && t.A.summaryRooted(allowLoads)
+	}
+	if t.A != nil && !t.A.summaryRooted(allowLoads) {
+		return false
+	}
+	if t.B != nil && !t.B.summaryRooted(allowLoads) {
+		return false
+	}
+	return true
+}
+
+func (t *Term) mentionsResult() bool {
+	if t.K == "R" {
+		return true
+	}
+	if t.A != nil && t.A.mentionsResult() {
+		return true
+	}
+	if t.B != nil && t.B.mentionsResult() {
+		return true
+	}
+	return false
+}
+
 func (t *Term) mentionsParam() bool {
 	if t.K == "P" {
 		return true
@@ -219,29 +252,47 @@ func (t *Term) mentionsParam() bool {
 
 // subst replaces parameter terms by the given argument terms.
 func (tt *termTable) subst(t *Term, args []*Term) *Term {
+	return tt.substFull(t, args, nil, -1)
+}
+
+// substFull also maps result symbols R(k) to the given terms and entry-epoch
+// loads L(a,0) to loads in the caller's epoch `epoch` (-1: not allowed).
+func (tt *termTable) substFull(t *Term, args, results []*Term, epoch int) *Term {
 	switch t.K {
 	case "P":
 		if t.N < len(args) && args[t.N] != nil {
 			return args[t.N]
 		}
 		return nil
+	case "R":
+		if t.N < len(results) && results[t.N] != nil {
+			return results[t.N]
+		}
+		return nil
 	case "C", "G":
 		return t
 	case "V", "FV":
 		return nil
+	case "L":
+		if epoch == -1 || t.N != 0 {
+			return nil
+		}
 	}
 	var a, b *Term
 	if t.A != nil {
-		if a = tt.subst(t.A, args); a == nil {
+		if a = tt.substFull(t.A, args, results, epoch); a == nil {
 			return nil
 		}
 	}
 	if t.B != nil {
-		if b = tt.subst(t.B, args); b == nil {
+		if b = tt.substFull(t.B, args, results, epoch); b == nil {
 			return nil
 		}
 	}
 	nt := *t
+	if t.K == "L" {
+		nt.N = epoch
+	}
 	nt.A, nt.B = a, b
 	nt.vals = nil
 	nt.eps = nil
@@ -286,6 +337,7 @@ type State struct {
 	bind  map[ssa.Value]ssa.Value // phi / local-cell load -> the value it currently equals
 	terms map[ssa.Value]*Term     // per-path term overrides (heap loads with epoch, aliased phis)
 	mem   map[*ssa.Alloc]ssa.Value // multi-store local cells: last stored value (nil = unknown)
+	cep   map[ssa.Value]int       // memory epoch at the time of each (pure) call
 	heap  map[string]heapCell     // store-to-load forwarding for heap cells (address term key -> stored value)
 	epoch int
 	dead  bool
@@ -299,7 +351,7 @@ type heapCell struct {
 }
 
 func newState() *State {
-	return &State{facts: map[string]Fact{}, bind: map[ssa.Value]ssa.Value{}, mem: map[*ssa.Alloc]ssa.Value{}, terms: map[ssa.Value]*Term{}, heap: map[string]heapCell{}}
+	return &State{facts: map[string]Fact{}, bind: map[ssa.Value]ssa.Value{}, mem: map[*ssa.Alloc]ssa.Value{}, terms: map[ssa.Value]*Term{}, heap: map[string]heapCell{}, cep: map[ssa.Value]int{}}
 }
 
 func (s *State) clone() *State {
@@ -307,6 +359,10 @@ func (s *State) clone() *State {
 		mem: make(map[*ssa.Alloc]ssa.Value, len(s.mem)), terms: make(map[ssa.Value]*Term, len(s.terms)), epoch: s.epoch, dead: s.dead}
 	for k, v := range s.terms {
 		n.terms[k] = v
+	}
+	n.cep = make(map[ssa.Value]int, len(s.cep))
+	for k, v := range s.cep {
+		n.cep[k] = v
 	}
 	n.heap = make(map[string]heapCell, len(s.heap))
 	for k, v := range s.heap {
@@ -371,6 +427,9 @@ func (s *State) key() string {
 	for k, c := range s.heap {
 		ks = append(ks, "h:"+k+"="+valueName(c.val))
 	}
+	for v, ep := range s.cep {
+		ks = append(ks, fmt.Sprintf("c:%s=%d", valueID(v), ep))
+	}
 	ks = append(ks, fmt.Sprintf("e:%d", s.epoch))
 	sort.Strings(ks)
 	return strings.Join(ks, ";")
@@ -405,6 +464,11 @@ func (s *State) dropMentioning(vals map[ssa.Value]bool) {
 	for a, w := range s.mem {
 		if w != nil && vals[w] {
 			s.mem[a] = nil
+		}
+	}
+	for v := range s.cep {
+		if vals[v] {
+			delete(s.cep, v)
 		}
 	}
 	for k, c := range s.heap {
@@ -499,6 +563,11 @@ func meetStates(a, b *State) *State {
 	for k, c := range a.heap {
 		if x, ok := b.heap[k]; ok && x.val == c.val {
 			n.heap[k] = c
+		}
+	}
+	for v, ep := range a.cep {
+		if x, ok := b.cep[v]; ok && x == ep {
+			n.cep[v] = ep
 		}
 	}
 	if a.epoch == b.epoch {
